@@ -283,9 +283,13 @@ PROPS["C09"] = {
         H("c09::union_unwrap", timeout_q=900, functions=C09_STRUCT_FUNCS, bounds="union[null,long] read as long; witness null; every value of the writer schema; verdict through the memoising Checker::can_read; mutual_read in both orders"),
         H("c09::union_branch_promoted", timeout_q=900, functions=C09_STRUCT_FUNCS, bounds="union[null,int] read as union[null,long], all i32; every value of the writer schema; verdict through the memoising Checker::can_read; mutual_read in both orders"),
         H("c09::union_wrap_promoted", timeout_q=900, functions=C09_STRUCT_FUNCS, bounds="int read as union[null,long], all i32; every value of the writer schema; verdict through the memoising Checker::can_read; mutual_read in both orders"),
+        H("c09::record_reader_field_added_with_default", timeout_q=900, functions=C09_STRUCT_FUNCS + ["apache_avro::types::Value::resolve_record"], bounds="record R{a: long} read as R{a: long, x: long default 5} (always safe); every value of the writer schema (all i64 payloads); verdict through the memoising Checker::can_read; mutual_read in both orders"),
+        H("c09::record_field_removed", timeout_q=900, functions=C09_STRUCT_FUNCS + ["apache_avro::types::Value::resolve_record"], bounds="record R{a, x: long} read as R{a: long} (always safe); every value of the writer schema (all i64 payloads); verdict through the memoising Checker::can_read; mutual_read in both orders"),
+        H("c09::record_fields_reordered", timeout_q=900, functions=C09_STRUCT_FUNCS + ["apache_avro::types::Value::resolve_record"], bounds="record R{a: long, b: boolean} read as R{b, a} (always safe); every value of the writer schema (all i64 payloads); verdict through the memoising Checker::can_read; mutual_read in both orders"),
+        H("c09::record_reader_field_added_without_default", timeout_q=900, functions=C09_STRUCT_FUNCS + ["apache_avro::types::Value::resolve_record"], bounds="record R{a: long} read as R{a, x: long} without default; witness: x cannot be filled; every value of the writer schema (all i64 payloads); verdict through the memoising Checker::can_read; mutual_read in both orders"),
         H("c09::finding_bytes_to_string", functions=C09_FUNCS, bounds="writer bytes read as string, all payloads <= 2 bytes", expect_fail=True),
     ],
-    "outside": "records, arrays, maps, recursive (Ref) schemas, logical types, unions beyond the listed pairs (in particular a narrowed numeric branch inside a union: its failing resolution is not decided within the cap), enums with more than two symbols: the leaf-kind verdict table plus the listed enum and union pairs are decided.",
+    "outside": "records beyond the four listed pairs (aliases, nested records, field type promotion inside records), arrays, maps, recursive (Ref) schemas, logical types, unions beyond the listed pairs (in particular a narrowed numeric branch inside a union: its failing resolution is not decided within the cap), enums with more than two symbols: the leaf-kind verdict table plus the listed enum and union pairs are decided.",
     "assumptions": ["leaf rows: verdict obtained from Checker::inner_full_match_schemas (what SchemaCompatibility::can_read returns for non-recursive schemas)",
                     "enum/union pairs and mutual_symmetric go through the memoising Checker::can_read with Checker::pointer_hash (SipHash of the schema address) replaced by an injective interning of the address: 64-bit hash collisions between distinct schema addresses are outside the claim",
                     "for a union reader the harness unwraps the written union, selects the branch with the real UnionSchema::find_schema_with_known_schemata and resolves against that branch (the three steps of Value::resolve_union) instead of calling resolve_union, whose not-found Result symex does not fold",
